@@ -3,7 +3,7 @@
    explicitly stated fixed-output-length premises of C08_binding_64 / C08_binding_any_width. *)
 From Coq Require Import NArith ZArith List Bool.
 From Coq.Strings Require Import Byte.
-From LV Require Import Lib.Bytes Lib.Decimal Model.C08 Model.C08_Claim Model.C08_Cache Proofs.C08 Proofs.C08_Cache.
+From LV Require Import Lib.Bytes Lib.Decimal Model.C08 Model.C08_Claim Model.C08_Cache Model.C08_Chunk Model.C08_Db Proofs.C08 Proofs.C08_Cache Proofs.C08_Chunk Proofs.C08_Db.
 Import ListNotations.
 
 (* Every genuine proof is accepted: for ALL leaf lists and ALL indices, folding the generated branch
@@ -279,6 +279,79 @@ Theorem C08_genuine_request_verified : forall (dsha : bytes -> bytes) s key raws
 Proof. exact genuine_request_verified. Qed.
 Print Assumptions C08_genuine_request_verified.
 
+(* ---------- checkpointed header chunks fetched on demand (Headers.get -> ensure_chunk_at -> fetch_chunk) ---------- *)
+(* Starting with every checkpointed chunk missing, for EVERY sequence of verification attempts and WHATEVER
+   the server answers to the chunk getter: an attempt that ends with the transaction flagged verified
+   read its header from a chunk c whose hash equals the built-in checkpoint of that chunk, and the proof
+   checks against that header; an attempt that ends in "Checkpoint mismatch" leaves the flag false. *)
+Theorem C08_chunk_attempts_sound : forall (dsha : bytes -> bytes) (csize : nat) (cps : list bytes) l,
+  Forall2 (fun a o =>
+    match o with
+    | AttDone r _ =>
+        t_verified (mv_state r) = true ->
+        exists c, nth_error cps (Z.to_nat (a_height a) / csize) = Some (dsha (concat c)) /\
+                  in_range (table csize cps (Z.to_nat (a_height a) / csize) c) (a_height a) /\
+                  proof_checks dsha (table csize cps (Z.to_nat (a_height a) / csize) c) (a_raw a) (a_height a)
+                               (effective (a_arg a) (a_net a))
+    | AttMismatch st => t_verified st = false
+    end) l (snd (attempts dsha csize cps [] l)).
+Proof. exact chunk_attempts_sound. Qed.
+Print Assumptions C08_chunk_attempts_sound.
+
+(* the header such a verification reads at height h is header (h - k*csize) of chunk k *)
+Theorem C08_chunk_table_reads_chunk : forall (dsha : bytes -> bytes) (csize : nat) (cps : list bytes) k c h d,
+  (k * csize <= h < k * csize + length c)%nat -> (h < total csize cps)%nat ->
+  nth h (table csize cps k c) d = nth (h - k * csize) c d.
+Proof. exact nth_table. Qed.
+Print Assumptions C08_chunk_table_reads_chunk.
+
+(* ---------- restarts and the persisted verdict ---------- *)
+(* A restart (close writes the chain held in memory, a new process opens the file) leaves exactly the
+   header list the last extension / reorganisation produced, for every history -- in particular after a
+   reorganisation that did not change the chain length. *)
+Theorem C08_restart_keeps_validated_headers : forall (dsha : bytes -> bytes) headers0 ops,
+  w_headers (final dsha {| w_headers := headers0; w_cache := [] |} (ops ++ [OpRestart])) =
+  w_headers (final dsha {| w_headers := headers0; w_cache := [] |} ops).
+Proof. exact restart_after_any_history. Qed.
+Print Assumptions C08_restart_keeps_validated_headers.
+
+Theorem C08_reorg_survives_restart : forall (dsha : bytes -> bytes) headers0 ops fork newh,
+  w_headers (final dsha {| w_headers := headers0; w_cache := [] |} (ops ++ [OpReorg fork newh; OpRestart])) =
+  firstn fork (w_headers (final dsha {| w_headers := headers0; w_cache := [] |} ops)) ++ newh.
+Proof. exact reorg_survives_restart. Qed.
+Print Assumptions C08_reorg_survives_restart.
+
+(* The database row read back after a history sync is exactly the verdict of THAT verification (fresh
+   transaction, the height the server reports now): earlier verdicts leave no trace. *)
+Theorem C08_db_row_is_latest_verdict : forall (dsha : bytes -> bytes) s key raw h arg net,
+  let r := maybe_verify dsha (d_headers s) (fresh h) raw h arg net in
+  (mv_outcome r = RetTx \/ mv_outcome r = RetNone) ->
+  row_lookup key (d_rows (dstep dsha s (DSync key raw h arg net))) =
+  Some {| c_raw := raw; c_resp := effective arg net; c_st := mv_state r |}.
+Proof. exact row_is_latest_verdict. Qed.
+Print Assumptions C08_db_row_is_latest_verdict.
+
+(* So a transaction once verified at height A and re-synced at a height that has no header, or with a
+   branch that does not lead to that header's root, is stored unverified at the new height. *)
+Theorem C08_db_resync_without_proof_unverifies : forall (dsha : bytes -> bytes) s key raw h arg net,
+  let r := maybe_verify dsha (d_headers s) (fresh h) raw h arg net in
+  (mv_outcome r = RetTx \/ mv_outcome r = RetNone) ->
+  ~ (in_range (d_headers s) h /\ proof_checks dsha (d_headers s) raw h (effective arg net)) ->
+  exists e, row_lookup key (d_rows (dstep dsha s (DSync key raw h arg net))) = Some e /\
+            t_verified (c_st e) = false /\ t_height (c_st e) = h.
+Proof. exact resync_without_proof_unverifies. Qed.
+Print Assumptions C08_db_resync_without_proof_unverifies.
+
+(* For EVERY sequence of history syncs, header extensions and restarts from an empty table, a stored row
+   flagged verified has a header at its height and its proof leads to that header's root. *)
+Theorem C08_db_rows_sound : forall (dsha : bytes -> bytes) headers0 ops key e,
+  let s := drun dsha {| d_headers := headers0; d_rows := [] |} ops in
+  row_lookup key (d_rows s) = Some e -> t_verified (c_st e) = true ->
+  in_range (d_headers s) (t_height (c_st e)) /\
+  proof_checks dsha (d_headers s) (c_raw e) (t_height (c_st e)) (c_resp e).
+Proof. exact db_rows_sound. Qed.
+Print Assumptions C08_db_rows_sound.
+
 (* ---------- non-vacuity (each a closed computation: tuples compared component-wise) ---------- *)
 (* a 5-leaf tree (two odd levels), index 4: branch of 3 siblings, fold reaches the root *)
 Example C08_ex_genuine :
@@ -355,4 +428,56 @@ Example C08_ex_cache :
    Some (Fetched {| t_height := 2; t_position := 1; t_verified := true |} RetTx); None;
    Some (Hit {| t_height := 2; t_position := 1; t_verified := true |}); None;
    Some (Fetched {| t_height := 2; t_position := 1; t_verified := false |} RetTx)].
+Proof. vm_compute. reflexivity. Qed.
+
+(* chunks of 2 headers, one checkpoint: a lying server is refused on every attempt (and nothing is
+   stored), the honest chunk is accepted, after which the forged proof is evaluated and rejected *)
+Example C08_ex_chunk :
+  let raws := map leaf_n [1; 2; 3]%N in
+  let l := map toy_hash raws in
+  let root := match merkle_root toy_hash l with Some r => r | None => [] end in
+  let real := [header_with_root (leaf_n 0); header_with_root (leaf_n 4)] in
+  let fake := [header_with_root (leaf_n 0); header_with_root root] in
+  let m := {| m_merkle := Some (map wire (branch toy_hash l 1)); m_pos := Some 1%Z |} in
+  let att c := {| a_served := c; a_raw := nth 1 raws []; a_height := 1; a_arg := Some m; a_net := m |} in
+  attempts toy_hash 2 [toy_hash (concat real)] [] [att fake; att fake; att real; att fake] =
+  ([(0%nat, real)],
+   [AttMismatch {| t_height := 1; t_position := (-1)%Z; t_verified := false |};
+    AttMismatch {| t_height := 1; t_position := (-1)%Z; t_verified := false |};
+    AttDone ({| t_height := 1; t_position := 1; t_verified := false |}, RetTx, false) true;
+    AttDone ({| t_height := 1; t_position := 1; t_verified := false |}, RetTx, false) false]).
+Proof. vm_compute. reflexivity. Qed.
+
+(* database row: verified at height 2, re-synced at height 7 (no header): stored (7, unverified) *)
+Example C08_ex_db_row :
+  let raws := map leaf_n [1; 2; 3]%N in
+  let l := map toy_hash raws in
+  let root := match merkle_root toy_hash l with Some r => r | None => [] end in
+  let m := {| m_merkle := Some (map wire (branch toy_hash l 1)); m_pos := Some 1%Z |} in
+  let h0 := [header_with_root (leaf_n 0); header_with_root (leaf_n 0); header_with_root root] in
+  let s1 := drun toy_hash {| d_headers := h0; d_rows := [] |} [DSync (leaf_n 77) (nth 1 raws []) 2 (Some m) m] in
+  let s2 := drun toy_hash s1 [DSync (leaf_n 77) (nth 1 raws []) 7 (Some m) m; DRestart] in
+  (map (fun kv => c_st (snd kv)) (d_rows s1), map (fun kv => c_st (snd kv)) (d_rows s2)) =
+  ([{| t_height := 2; t_position := 1; t_verified := true |}],
+   [{| t_height := 7; t_position := (-1)%Z; t_verified := false |}]).
+Proof. vm_compute. reflexivity. Qed.
+
+(* REFUTED old behaviour (before fix af7a9e2): when a competing tip of the same height replaced header 2
+   without a rewind and the cache was kept, the cached request was a Hit flagged verified although the
+   stored proof no longer leads to the root of the header now held at height 2 *)
+Example C08_cache_kept_on_replacement_refuted :
+  let raws := map leaf_n [1; 2; 3]%N in
+  let l := map toy_hash raws in
+  let root := match merkle_root toy_hash l with Some r => r | None => [] end in
+  let m := {| m_merkle := Some (map wire (branch toy_hash l 1)); m_pos := Some 1%Z |} in
+  let h0 := [header_with_root (leaf_n 0); header_with_root (leaf_n 0); header_with_root root] in
+  let s1 := final toy_hash {| w_headers := h0; w_cache := [] |} [OpRequest (leaf_n 77) (nth 1 raws []) 2 (Some m) m] in
+  let s_old := old_replace s1 2 [header_with_root (leaf_n 5)] in
+  let s_new := final toy_hash s1 [OpReplace 2 [header_with_root (leaf_n 5)]] in
+  (snd (request toy_hash s_old (leaf_n 77) (nth 1 raws []) 2 (Some m) m),
+   bytes_eqb (fold_branch toy_hash (branch toy_hash l 1) 1 (toy_hash (nth 1 raws [])))
+             (header_root_raw (nth 2 (w_headers s_old) [])),
+   snd (request toy_hash s_new (leaf_n 77) (nth 1 raws []) 2 (Some m) m)) =
+  (Hit {| t_height := 2; t_position := 1; t_verified := true |}, false,
+   Fetched {| t_height := 2; t_position := 1; t_verified := false |} RetTx).
 Proof. vm_compute. reflexivity. Qed.
